@@ -170,8 +170,19 @@ pub fn judge(src: &str, o: &mut Outcome, detail: &Value) {
     let viol = |o: &mut Outcome, sig: &str, what: String| o.violate(Violation::new(sig, what).with_detail(detail.clone()));
     let lowered = match panics::catch(|| crate::common::pipeline::lower_source(src)) {
         Ok(Ok(t)) => t,
-        _ => {
+        other => {
             o.class("program-not-lowerable-in-process");
+            if let Ok(dir) = std::env::var("VERIF_C17_TRACE") {
+                use std::io::Write;
+                let _ = std::fs::create_dir_all(&dir);
+                if let Ok(mut f) = std::fs::OpenOptions::new().create(true).append(true).open(format!("{dir}/{}", std::process::id())) {
+                    let why = match other {
+                        Ok(Err(e)) => crate::engine::first_line(&e.to_string(), 200),
+                        _ => "panic".to_string(),
+                    };
+                    let _ = writeln!(f, "{}\t{}", why, serde_json::to_string(src).unwrap_or_default());
+                }
+            }
             return;
         }
     };
